@@ -61,6 +61,9 @@ func genC23(seed uint64) *Plan {
 	pc := basicPeer(0, as)
 	pc.ManualOpen = true
 	hold := pick(r, []uint16{30, 9, 90})
+	if seed%3 != 0 && r.Chance(0.2) {
+		hold = 0 // no hold and keepalive timers once the OPENs are exchanged (RFC 4271 4.2 / 8.2.2)
+	}
 	pc.PeerHold, pc.DUTHold = hold, hold
 	pc.Import = pick(r, []*PolicySpec{AcceptAll(), AcceptAll(), {Terms: []TermSpec{{Actions: []ActionSpec{{Kind: "lp", V: 150}}}, {Actions: []ActionSpec{{Kind: "accept"}}}}}})
 	pl.Peers = []PeerCfg{pc}
@@ -175,7 +178,11 @@ func genC23(seed uint64) *Plan {
 		default:
 			if r.Chance(0.5) {
 				st = Step{Kind: "wait", Label: evWait}
-				gap = int64(1_000_000 + r.Intn(int(hold)*300_000))
+				h := int(hold)
+				if h == 0 {
+					h = 9
+				}
+				gap = int64(1_000_000 + r.Intn(h*300_000))
 			} else {
 				// silence until every hold timer has expired (OpenSent uses the large RFC value)
 				pl.Steps = append(pl.Steps, Step{GapUS: gap, Kind: "peer_silent", On: true, Label: "silence"})
@@ -307,6 +314,10 @@ func (o *c23Oracle) AfterStep(w *World, i int, s *Step) {
 	got, attached, closed, _ := o.observe(w)
 	prev := o.state
 	allowed, known := rfcFSM[prev][ev]
+	if p.Cfg.DUTHold == 0 && (prev == "openConfirm" || prev == "established") && ev == evHoldExpire {
+		// hold time 0 was negotiated: there is no hold timer that could expire in these states
+		allowed = []string{prev}
+	}
 	if o.active && (ev == evWait || prev == "idle" || prev == "connect" || prev == "active") {
 		// the active side without an open session: whatever the neighbour sends cannot arrive, only
 		// the FSM's own timers act
@@ -331,7 +342,7 @@ func (o *c23Oracle) AfterStep(w *World, i int, s *Step) {
 		// a silent wait in Established/OpenConfirm shorter than the hold time keeps the state; the generator's
 		// evWait gaps stay below the hold time only while the peer sends keepalives (Established); in OpenSent /
 		// OpenConfirm nothing is sent, so a long wait may legitimately expire the hold timer
-		if !ok && ev == evWait && got == "idle" && prev == "openConfirm" {
+		if !ok && ev == evWait && got == "idle" && prev == "openConfirm" && p.Cfg.DUTHold != 0 {
 			ok = true
 		}
 		if !ok {
